@@ -1,7 +1,12 @@
 (* C07 — surface views are exact, non-aliasing windows onto their parent.
    Statements only.  H x W is the root surface (backing vector of at least
    H*W elements); a chain is any finite list of view(rows, cols) / transpose
-   operations with arbitrary signed, inclusive/exclusive/open selectors. *)
+   operations with arbitrary signed, inclusive/exclusive/open selectors.
+   Counted: the 10 Theorems.  Audited, not counted: Lemma
+   C07_insert_index_at_or_beyond_usize_max, Example C07_example.
+   Restricted domain: root height, width <= i64::MAX where a chain is built
+   (C07_chain_denotes_window, C07_is_empty); the other theorems hold for every
+   represented shape (Rep). *)
 From Coq Require Import List Arith Bool ZArith NArith.
 From SNT Require Import Surface.Bounds Surface.Shape Surface.ShapeProofs Surface.ShapeOpsProofs.
 Import ListNotations.
@@ -99,9 +104,8 @@ Proof. intros A B H W sh w data f Hrep Hlen. exact (map_spec H W sh w data Hrep 
 (* insert(pos, items) with the index arithmetic pos.row * width + pos.col done in usize (insert_at):
    while that index is below usize::MAX there is no panic; item i lands in the window cell with row-major
    index pos.row*width + pos.col + i while that index is inside the window (excess items are
-   dropped), every other element of the backing vector is unchanged.  If the index does not fit,
-   the debug build panics before anything is written (C07_insert_index_overflow_panics); at exactly
-   usize::MAX the iterator's own index increment overflows once an item is offered (model insert_at). *)
+   dropped), every other element of the backing vector is unchanged.  From usize::MAX on see the
+   Lemma C07_insert_index_at_or_beyond_usize_max below (audited, not counted). *)
 Theorem C07_insert_writes_only_window_cells_upto_usize :
   forall (A : Type) (H W : nat) (sh : shape) (w : window) (data : list A) (r c : N) (items : list A),
   Rep H W sh w -> H * W <= length data ->
